@@ -266,6 +266,28 @@ class Gen:
             n = rng.choice([0, k + 1])
         self.emit({"op": "select", "workers": lst, "n": n, "kind": self.count_kind()})
 
+    def shared_selection(self):
+        """one selection object required by two (or three) tasks — they share its choice of workers and its count —,
+        preferably one that asks for two workers or more"""
+        rng = self.rng
+        ts = self.tasks()
+        sels = []
+        for i, sel in enumerate(self.real.selects()):
+            names = {w.name for w in sel.list_of_workers}
+            if any("_CumulativeWorker_" in n or n in self.real.cumuls for n in names):
+                continue
+            free = [t for t in ts if not (names & {x.name for x in self.real.tasks[t]._required_resources})
+                    and sel not in self.real.tasks[t]._required_resources]
+            if len(free) >= 2:
+                sels.append((i, sel, free))
+        if not sels:
+            return False
+        big = [x for x in sels if x[1].nb_workers_to_select >= 2]
+        i, sel, free = rng.choice(big) if big and rng.random() < 0.7 else rng.choice(sels)
+        for t in rng.sample(free, min(len(free), rng.choice([2, 2, 3]))):
+            self.emit({"op": "require", "task": t, "res": ("select", i)})
+        return True
+
     def shared_pair(self):
         """two tasks that share a plainly required worker (busy for part of the task only, half of the time) and also
         meet on another resource through a selection or a cumulative worker"""
@@ -315,6 +337,8 @@ class Gen:
         if not ts:
             return self.g_task()
         if rng.random() < 0.12 and not self.frag and self.shared_pair():
+            return
+        if rng.random() < 0.08 and self.shared_selection():
             return
         t = rng.choice(ts)
         already = {w.name for w in self.real.tasks[t]._required_resources}
@@ -373,10 +397,12 @@ class Gen:
         multi = self.some_tasks(2, 4)
         if multi:
             win = rng.choice([None, self.interval(), (0, self.H())])
+            # a group of one task is still a group: its window / length bounds that task
+            grp = multi[:1] if rng.random() < 0.15 else multi
             forms += [
                 lambda: ("contiguous", multi),
-                lambda: ("unorderedGroup", multi, win, rng.choice([0, 3, 6, self.H()])),
-                lambda: ("orderedGroup", multi, win, rng.choice([0, 4, 8, self.H()]), rng.choice(["lax", "strict", "tight"])),
+                lambda: ("unorderedGroup", grp, win, rng.choice([0, 3, 6, self.H()])),
+                lambda: ("orderedGroup", grp, win, rng.choice([0, 4, 8, self.H()]), rng.choice(["lax", "strict", "tight"])),
                 lambda: ("scheduleN", multi, rng.randint(0, len(multi)), self.intervals_for_count(), self.count_kind()),
             ]
         if opts:
